@@ -1,10 +1,108 @@
 import PewDriver.Util
+import PewModel.LaserEdit
 open Lean
 namespace PewDriver.C07
-open PewDriver
+open PewDriver Pew.LaserEdit
 
-def handle (op : String) (_req : Json) : R Json := do
+def asPair {α β : Type} (f : Json → R α) (g : Json → R β) (j : Json) : R (α × β) :=
+  match j with
+  | .arr #[a, b] => do pure (← f a, ← g b)
+  | _ => throw s!"expected pair, got {j.compress}"
+
+def parseLayer (j : Json) : R Layer := do
+  let shape ← getList asNat j "shape"
+  let fields ← getList (asPair asStr asNat) j "fields"
+  pure { shape := shape, fields := fields }
+
+def parseOp (j : Json) : R Op := do
+  match ← getStr j "op" with
+  | "add" => pure (.add (← getStr j "name") (← getList asNat j "data") (← getNat j "cal"))
+  | "remove" => pure (.remove (← getList asStr j "names"))
+  | "rename" => pure (.rename (← getList (asPair asStr asStr) j "map"))
+  | "get" =>
+    pure (.get (← getNat j "layer") (← fld j "target" >>= asOpt asStr) (← getBool j "calibrate"))
+  | "caller_edit" => pure .callerEdit
+  | o => throw s!"bad op {o}"
+
+structure Rd where
+  layer : Nat
+  target : Option String
+  calibrate : Bool
+
+def parseRd (j : Json) : R Rd := do
+  pure { layer := ← getNat j "layer", target := ← fld j "target" >>= asOpt asStr,
+         calibrate := ← getBool j "calibrate" }
+
+def jReadOut (r : Option ReadOut) : Json :=
+  jOpt (jList (fun (e : String × Nat × Option Nat) => Json.arr #[jStr e.1, jNat e.2.1, jOpt jNat e.2.2])) r
+
+def prod (l : List Nat) : Nat := l.foldl (· * ·) 1
+
+def obsModel (s : State) (rds : List Rd) : Json :=
+  jObj [("elements", jList jStr s.elements),
+        ("cal", jList (fun (e : String × Nat) => Json.arr #[jStr e.1, jNat e.2]) s.cal),
+        ("shape", jList jNat s.shape),
+        ("cfg", jNat s.cfg),
+        ("layers", jList (fun (l : Layer) =>
+            jList (fun (e : String × Nat) => Json.arr #[jStr e.1, jNat e.2]) l.fields) s.layers),
+        ("sizes", jList (fun (l : Layer) => jNat (prod l.shape)) s.layers),
+        ("reads", jList (fun (r : Rd) => jReadOut (read s r.layer r.target r.calibrate)) rds)]
+
+def obsSpec (a : Spec) (rds : List Rd) : Json :=
+  jObj [("elements", jList jStr (keys a.map)),
+        ("map", jList (fun (e : String × Entry) =>
+            Json.arr #[jStr e.1, jList jNat e.2.1, jNat e.2.2]) a.map),
+        ("shape", jList jNat a.shape),
+        ("cfg", jNat a.cfg),
+        ("sizes", jList (fun (sh : List Nat) => jNat (prod sh)) a.shapes),
+        ("reads", jList (fun (r : Rd) => jReadOut (a.read r.layer r.target r.calibrate)) rds)]
+
+/-- observations of the mechanism after 0, 1, … ops (`none` from the first failing op on) -/
+def traceModel : Option State → List Op → List (Option State)
+  | s, [] => [s]
+  | s, op :: ops => s :: traceModel (s.bind (step · op)) ops
+
+def traceSpec : Option Spec → List Op → List (Option Spec)
+  | a, [] => [a]
+  | a, op :: ops => a :: traceSpec (a.bind (Spec.step · op)) ops
+
+def runOne (req : Json) : R Json := do
+  let srr ← getBool req "srr"
+  let layers ← getList parseLayer req "layers"
+  let given ← fld req "given" >>= asOpt (asList (asPair asStr asNat))
+  let cfg ← getNat req "cfg"
+  let rt ← getBool req "roundtrip"
+  let ops ← getList parseOp req "ops"
+  let rds ← getList parseRd req "reads"
+  let lastOnly ← getBool req "last_only"
+  -- mechanism: the constructor, then (optionally) save/load, then the operations
+  let s0 : Option State :=
+    if srr then constructSRR layers given cfg
+    else match layers with
+      | [l] => some (constructLaser l given cfg)
+      | _ => none
+  let s1 := if rt then s0.bind roundTrip else s0
+  -- specification: the dictionary of the constructor arguments (save/load is the identity)
+  let a0 : Option Spec :=
+    if (srr && layers.length > 1) || (!srr && layers.length == 1) then
+      some (Spec.construct srr layers given cfg)
+    else none
+  let tm := traceModel s1 ops
+  let ts := traceSpec a0 ops
+  let pick := fun {α} (l : List α) => if lastOnly then l.drop (l.length - 1) else l
+  let enc := fun (p : Option State × Option Spec) =>
+    jObj [("model", jOpt (obsModel · rds) p.1), ("spec", jOpt (obsSpec · rds) p.2),
+          ("inv", jBool (match p.1 with | some s => decide (Inv s) | none => false)),
+          ("abs_eq", jBool (match p.1, p.2 with | some s, some a => decide (abs s = a) | _, _ => false))]
+  pure (jObj [("steps", jList enc (pick (tm.zip ts)))])
+
+def handle (op : String) (req : Json) : R Json := do
   match op with
+  | "c07.run" => runOne req
+  | "c07.batch" =>
+    let runs ← getList pure req "runs"
+    let outs ← runs.mapM runOne
+    pure (jObj [("runs", Json.arr outs.toArray)])
   | _ => throw s!"unknown op {op}"
 
 end PewDriver.C07
